@@ -18,6 +18,7 @@ PARTS += ["ioload"]       # mir_eval/io.py loaders -> MirGen/IOLoad.lean (C20)
 PARTS += ["chordfns"]
 PARTS += ["chordfns_rotate"]
 PARTS += ["segindex"]
+PARTS += ["chordcmp"]     # mir_eval/chord.py comparison functions -> MirGen/ChordCmp.lean (C11)
 
 
 def write_if_changed(path, text):
